@@ -223,7 +223,14 @@ std::string OutputContent(const Stmt& s, int out_index, const std::vector<std::p
   std::vector<std::pair<std::string, std::string>> v = snapshot;
   std::sort(v.begin(), v.end());
   uint64_t h = Hash64(std::string("stmt"), 17 + (uint64_t)s.key * 1000003ull + (uint64_t)out_index);
-  for (auto& kv : v) { h = Hash64(kv.first, h); h = Hash64(kv.second, h); }
+  for (auto& kv : v) {
+    // what a command computes does not depend on which files a source includes
+    // (only on what they contain), and an empty file contributes nothing
+    std::string c = kv.second;
+    if (c.compare(0, 4, "src ") == 0) { size_t i = c.rfind(" i"); if (i != std::string::npos) c.erase(i); }
+    if (c.empty()) continue;
+    h = Hash64(kv.first, h); h = Hash64(c, h);
+  }
   if (s.rsp) h = Hash64(rsp_content, h);
   char buf[96];
   snprintf(buf, sizeof buf, "out %d.%d k%d %016llx\n", s.id, out_index, s.key, (unsigned long long)h);
